@@ -31,12 +31,13 @@ namespace Srtla.SelShell
 open Srtla Srtla.Gen Srtla.Conn Srtla.Select Srtla.Rtt Srtla.Link Srtla.Sys Scalar
 
 variable {F : Type} [Scalar F]
+variable {fa : List (Nat × Nat)}
 
 /-! ## flush -/
 
 theorem flushGo_link (now : Nat) (ls : List (FLink F)) (fn : List Nat) (j : Nat) (l : FLink F)
     (hl : ls[j]? = some l) :
-    ∃ l', (flushGo now ls fn).1[j]? = some l' ∧ (l' = l ∨ l' = (l.takeBatch now).1) := by
+    ∃ l', (flushGo fa now ls fn).1[j]? = some l' ∧ (l' = l ∨ l' = (l.takeBatch now).1) := by
   induction ls generalizing fn j with
   | nil => simp at hl
   | cons a rest ih =>
@@ -47,7 +48,7 @@ theorem flushGo_link (now : Nat) (ls : List (FLink F)) (fn : List Nat) (j : Nat)
       | zero =>
         simp only [List.getElem?_cons_zero, Option.some.injEq] at hl
         subst hl
-        exact ⟨_, by simp, Or.inr (Hk.sendBatch_cases a now fn).1⟩
+        exact ⟨_, by simp, Or.inr (Hk.sendBatch_cases (fa := fa) a now fn).1⟩
       | succ j =>
         simp only [List.getElem?_cons_succ] at hl ⊢
         exact ih _ j hl
@@ -171,7 +172,7 @@ theorem passLinks_length (s : Sys F) (pkt : Sys.Bytes) (now : Nat) :
 theorem forwardVia_link (s : Sys F) (sel : Nat) (pkt : Sys.Bytes) (seq : Option Nat) (now j : Nat) (m : FLink F)
     (hm : s.links[j]? = some m) :
     (forwardVia s sel pkt seq now).1.links[j]? =
-      some (if j = sel then (Hk.fwdLink m pkt seq now s.failNext).1 else m) := by
+      some (if j = sel then (Hk.fwdLink s.failAfter m pkt seq now s.failNext).1 else m) := by
   cases hs : s.links[sel]? with
   | none =>
     rw [Hk.forwardVia_none s sel pkt seq now hs, hm]
@@ -189,10 +190,10 @@ theorem forwardVia_link (s : Sys F) (sel : Nat) (pkt : Sys.Bytes) (seq : Option 
 
 theorem stallProbesGo_link (pkt : Sys.Bytes) (seq : Option Nat) (now sel : Nat) (ls : List (FLink F)) (i : Nat)
     (fn : List Nat) (k : Nat) (m : FLink F) (hm : ls[k]? = some m) :
-    ∃ l', (stallProbesGo pkt seq now sel ls i fn).1[k]? = some l' ∧
+    ∃ l', (stallProbesGo fa pkt seq now sel ls i fn).1[k]? = some l' ∧
       ((l' = m ∧ (i + k = sel ∨ m.stallGated = false ∨ m.core.connected = false)) ∨
        (i + k ≠ sel ∧ m.stallGated = true ∧ m.core.connected = true ∧
-          ∃ fn', l' = (Hk.probeLink m pkt seq now fn').1)) := by
+          ∃ fn', l' = (Hk.probeLink fa m pkt seq now fn').1)) := by
   induction ls generalizing i fn k with
   | nil => simp at hm
   | cons a rest ih =>
@@ -237,13 +238,13 @@ inductive ClientFx (s : Sys F) (pkt : Sys.Bytes) (now j : Nat) (m l' : FLink F) 
   | idle (ht : clientTarget s pkt now ≠ some j) (h : l' = m)
   /-- the target: the datagram is queued here (threshold flush, tear-down on a failed flush) -/
   | target (ht : clientTarget s pkt now = some j)
-      (h : l' = (Hk.fwdLink m pkt (Codec.getSrtSequenceNumberS pkt) now s.failNext).1)
+      (h : l' = (Hk.fwdLink s.failAfter m pkt (Codec.getSrtSequenceNumberS pkt) now s.failNext).1)
   /-- a stall-gated, connected link other than the target, data packet, registered session:
   `stall_probe_due` is consulted and every 100th time a duplicate copy is queued here -/
   | probe (ht : clientTarget s pkt now ≠ some j) (hpass : passRan s pkt = true)
       (hseq : (Codec.getSrtSequenceNumberS pkt).isSome = true) (hsome : (clientTarget s pkt now).isSome = true)
       (hg : m.stallGated = true) (hc : m.core.connected = true)
-      (h : ∃ fn, l' = (Hk.probeLink m pkt (Codec.getSrtSequenceNumberS pkt) now fn).1)
+      (h : ∃ fn, l' = (Hk.probeLink s.failAfter m pkt (Codec.getSrtSequenceNumberS pkt) now fn).1)
 
 /-- **`client` event, link `j`**, relative to the link `m` the selection pass left at index `j`. -/
 theorem client_link (s : Sys F) (pkt : Sys.Bytes) (now j : Nat) (m : FLink F)
@@ -312,7 +313,8 @@ theorem client_link (s : Sys F) (pkt : Sys.Bytes) (now j : Nat) (m : FLink F)
               rw [ht, hsel]; intro h; exact hji (Option.some.inj h).symm
             rcases h2 with ⟨e, -⟩ | ⟨-, hg, hc, hfn'⟩
             · exact .idle hnt e
-            · exact .probe hnt hpr hseq (by rw [ht, hsel]; rfl) hg hc hfn'
+            · rw [Hk.forwardVia_runSelect_failAfter] at hfn'
+              exact .probe hnt hpr hseq (by rw [ht, hsel]; rfl) hg hc hfn'
         · refine ⟨_, hf, ?_⟩
           by_cases hji : j = i
           · subst hji
@@ -373,6 +375,7 @@ theorem cfg_links (s : Sys F) (e : Ev) (h : isArm e = false) (hnr : e.isReload =
   | setCfg cfg => exact ⟨l, hl, .inl rfl⟩
   | crit d => exact ⟨l, hl, .inl rfl⟩
   | failNext c => exact ⟨l, hl, .inl rfl⟩
+  | failAfter c kfa => exact ⟨l, hl, .inl rfl⟩
   | failBind c => exact ⟨l, hl, .inl rfl⟩
   | stamp idx weak ld ccb cct =>
     have hg : (step s (.stamp idx weak ld ccb cct)).1.links[j]? =
